@@ -197,9 +197,16 @@ inline void write_file(const std::string &p, const std::string &s) {
   close(fd);
 }
 
+inline void write_stats();
 inline void death_cb() {
   State &s = st();
-  if (!s.outdir.empty() && !s.cur.empty()) write_file(s.outdir + "/crash.case", s.cur);
+  static bool once = false;
+  if (once) return;
+  once = true;
+  if (!s.outdir.empty() && !s.cur.empty()) {
+    write_file(s.outdir + "/crash.case", s.cur);
+    if (!s.failed) { s.failed = true; write_stats(); }   // counters survive the abort
+  }
 }
 inline void sig_cb(int sig) {
   death_cb();
